@@ -42,7 +42,21 @@ def run(ctx):
         mcs += [("render/MCRender", f"MCRender.{c}.cfg", ["Frame", "Clear"]) for c in ("q2", "t1", "t2", "t3", "t4")]
         mcs += [("render/MCLoop", "MCLoop.imgnodrop.cfg", ["Iterate", "Deliver"])]
     w = 4 if q else 3
-    mc_res = lib.tlc_parallel([dict(module=m, cfg=c, workers=w, coverage=True, check=False, timeout=3000, heap="4g") for m, c, _ in mcs])
+    sims = [] if q else [("render/MCRender", "MCRender.s1.cfg"), ("render/MCRender", "MCRender.s3.cfg")]
+    all_res = lib.tlc_parallel([dict(module=m, cfg=c, workers=w, coverage=True, check=False, timeout=3300, heap="4g") for m, c, _ in mcs]
+                               + [dict(module=m, cfg=c, workers=2, simulate="num=60000", depth=15, seed=ctx.seed, check=False, timeout=3300, heap="4g") for m, c in sims])
+    mc_res = all_res[:len(mcs)]
+    for (m, c), r in zip(sims, all_res[len(mcs):]):
+        # closures too large to enumerate (2x3 and 1x5 over the image alphabets): seeded random walks of the same model
+        if r.error:
+            lib.log(r.out[-3000:])
+            raise lib.ToolError(f"TLC error in {c}")
+        if r.invariant:
+            i = r.out.find("Error: Invariant")
+            ctx.fail({"scenario": "model", "why": r.invariant, "cfg": c}, f"renderer model {c} (simulation): invariant {r.invariant} violated", {"kind": "model", "cfg": c, "trace": r.out[i:i + 6000]})
+        import re as _re
+        mm = _re.search(r"The number of states generated: (\d+)", r.out)
+        ctx.sim = getattr(ctx, "sim", []) + [{"model": c, "mode": "simulate num=60000 depth=15", "states_visited": int(mm.group(1)) if mm else 0, "wall_s": round(r.wall, 1)}]
     ctx.mc = []
     for (m, c, acts), r in zip(mcs, mc_res):
         if r.error:
@@ -139,7 +153,7 @@ def run(ctx):
         "states": sum(m["states"] for m in ctx.mc), "transitions": sum(m["transitions"] for m in ctx.mc),
         "traces_validated_against_impl": nh,
         "samples": sample,
-        "model_runs": ctx.mc,
+        "model_runs": ctx.mc, "model_simulations": getattr(ctx, "sim", []),
         "frames_judged": frames, "distinct_nontrivial": len(shapes), "evaluations": nh,
         "rule": "histories = seeded random op sequences (frame/clear/recreate/new/skip) on several screen sizes, all ordered pairs of TLC-generated surfaces on small screens, run_render sessions with scripted deliveries/drops/resizes; distinct = distinct (scenario, size, op, surface) tuples",
         "generated_surfaces": nsurf,
